@@ -79,7 +79,19 @@ func checkOnceBubble(c OnceCase) error {
 		}
 		fillerCons := map[int]int{}
 		nextFiller := 1000
+		floodGate := make(chan struct{})
+		floodCons := map[int]int{}
+		flooded, nextFlood := 0, 100000
 		construct := func(k int) string {
+			if k >= 100000 {
+				// Flood keys: all of them wait for one gate that stays closed
+				// until the end of the script.
+				mu.Lock()
+				floodCons[k]++
+				mu.Unlock()
+				<-floodGate
+				return fmt.Sprintf("flood-%d", k)
+			}
 			if k >= 1000 {
 				// Filler keys: constructed at once, no gate.
 				mu.Lock()
@@ -137,6 +149,37 @@ func checkOnceBubble(c OnceCase) error {
 					open[a.Arg] = true
 					close(gates[a.Arg])
 				}
+			case "flood":
+				// Many distinct keys are under (slow) construction at once.
+				for j := 0; j < a.Arg; j++ {
+					k := nextFlood
+					nextFlood++
+					flooded++
+					wg.Add(1)
+					go func() {
+						defer wg.Done()
+						if got := get(k); got != fmt.Sprintf("flood-%d", k) {
+							v.fail("Get(%d) returned %q", k, got)
+						}
+					}()
+				}
+				synctest.Wait()
+				// A key nobody has asked for yet must still be constructible.
+				probeDone := false
+				k := nextFiller
+				nextFiller++
+				go func() {
+					got := get(k)
+					mu.Lock()
+					probeDone = got == fmt.Sprintf("filler-%d", k)
+					mu.Unlock()
+				}()
+				synctest.Wait()
+				mu.Lock()
+				if !probeDone {
+					v.fail("after step %d: with %d other keys under slow construction, Get of the new key %d (whose constructor returns at once) has not returned", step, flooded, k)
+				}
+				mu.Unlock()
 			case "fill":
 				// Many other distinct keys are requested and complete while
 				// slow constructions may be in flight.
@@ -197,7 +240,13 @@ func checkOnceBubble(c OnceCase) error {
 				close(gates[k])
 			}
 		}
+		close(floodGate)
 		wg.Wait()
+		for k, n := range floodCons {
+			if n != 1 {
+				v.fail("flood key %d was constructed %d times", k, n)
+			}
+		}
 		mu.Lock()
 		for k, rs := range results {
 			if cons[k] != 1 {
@@ -221,6 +270,12 @@ func checkOnceBubble(c OnceCase) error {
 	}
 	if c.AnyKeys != 0 && c.K >= 2 {
 		vp.Class("once:interface-keys-that-print-alike")
+	}
+	for _, a := range c.Script {
+		if a.Kind == "flood" && a.Arg >= 1024 {
+			vp.Class("once:>=1024-keys-under-construction-at-once")
+			break
+		}
 	}
 	if concurrentArrivals {
 		vp.Class("once:>=2-callers-arrived-during-construction")
@@ -285,6 +340,9 @@ var onceBubbleProp = vp.Register(vp.Prop[OnceCase]{
 		}
 		for k := 0; k < c.K; k++ {
 			acts = append(acts, Act{Kind: "open", Arg: k})
+		}
+		if rapid.IntRange(0, 39).Draw(t, "flood") == 0 {
+			acts = append(acts, Act{Kind: "flood", Arg: rapid.SampledFrom([]int{300, 1100, 2100, 4200}).Draw(t, "flooded")})
 		}
 		for j := 0; j < rapid.IntRange(0, 2).Draw(t, "fills"); j++ {
 			acts = append(acts, Act{Kind: "fill", Arg: rapid.SampledFrom([]int{1, 10, 63, 64, 65, 130, 257}).Draw(t, "fill")})
